@@ -126,7 +126,7 @@ def run(res, tier):
     own = False
     for v in f.walk():
         if v['k'] == 'VarDecl' and v['d'] == tgt.get('d') and v['ch']:
-            calls = [x for x in v['ch'][0].walk() if x.is_call()]
+            calls = [x for x in A.walk_through_locals(f, v['ch'][0]) if x.is_call()]
             own = any((x.get('q') or '').endswith('::GetAncestorNode') and x.args() and x.args()[0].get('v') == depth_sn for x in calls) and any((x.get('q') or '').endswith('::GetSession') for x in calls)
     res.ob('GUARD', f.where(), 'the delivery target is GetSession(name of the matched node\'s ancestor at NODE_DEPTH_SESSIONNAME)', own, function=f.q, key='GUARD|%s|target' % f.q,
            how='GetSession(node.GetAncestorNode(NODE_DEPTH_SESSIONNAME, &node)->GetNodeName())',
